@@ -13,15 +13,15 @@ f=m['checks_that_fired']
 s=[m['property_broken']]+([c for c in f if c!=m['property_broken']][:1] if m['property_broken'] not in f else [])
 print(' '.join(s))")
   [ -n "${CHECKS:-}" ] && cks="$CHECKS"
-  tmp=/tmp/final-seed-one/$n; rm -rf $tmp; mkdir -p $tmp/tests
+  tmp=/tmp/final-seed-one$SUF/$n; rm -rf $tmp; mkdir -p $tmp/tests
   cp $d/patch.diff $tmp/; cp $d/demo_break.rs $tmp/tests/; cp $d/NOTES.md $tmp/ 2>/dev/null
   python3 -c "import json;m=json.load(open('$d/meta.json'));json.dump({k:m[k] for k in ('summary','ported','owning_check_before_strengthening','note') if k in m},open('$tmp/keep.json','w'))"
-  tools/eval_seed.sh $pid $tmp $n $cks > /tmp/final-seed-one/$n.log 2>&1
+  tools/eval_seed.sh $pid $tmp $n $cks > /tmp/final-seed-one$SUF/$n.log 2>&1
   python3 -c "
 import json
 m=json.load(open('$d/meta.json')); k=json.load(open('$tmp/keep.json')); m.update(k); json.dump(m,open('$d/meta.json','w'),indent=1)"
-  echo "$n: $(grep confirmed /tmp/final-seed-one/$n.log)"
-  cat /tmp/final-seed-one/$n.log | cut -c1-300
+  echo "$n: $(grep confirmed /tmp/final-seed-one$SUF/$n.log)"
+  cat /tmp/final-seed-one$SUF/$n.log | cut -c1-300
   rm -rf $tmp
 done
-rm -rf /tmp/final-seed-one
+rm -rf /tmp/final-seed-one$SUF
